@@ -147,4 +147,19 @@ PROPS = {
             "a race report that cannot be confirmed from the journalled workload in fresh processes ends the run as inconclusive (exit 2), not as a violation",
         ],
     },
+    "C20": {
+        "quick": [
+            {"test": "TestC20Cache", "checks": 6000, "shards": 3, "gomaxprocs": [4, 16, 2]},
+            {"test": "TestC20Cache", "checks": 600, "shards": 2, "race": True, "gomaxprocs": [4, 16]},
+        ],
+        "thorough": [
+            {"test": "TestC20Cache", "checks": 480000, "shards": 12, "gomaxprocs": [4, 16, 2, 8]},
+            {"test": "TestC20Cache", "checks": 32000, "shards": 8, "race": True, "gomaxprocs": [4, 16, 2, 8]},
+        ],
+        "assumptions": [
+            "Debug is toggled only in sequential steps (its doc comment puts the synchronisation on the caller)",
+            "interleavings of the concurrent batches are sampled; a 200 microsecond delay inside the loader during homogeneous batches only widens race windows and is never an oracle",
+            "histories are shrunk and replayed by rapid (operation log printed with the violation); the replay file holds the minimal operation log",
+        ],
+    },
 }
